@@ -81,6 +81,23 @@ def _verify_c(job):
                 solve.discharge2(ob, tmo if not rec.get("finst_sat") else min(tmo, 10))
                 if ob.status == "discharged":
                     recs.pop(q, None)
+        # engine cross-check / bounded stand-in: the proved contract evaluated on the REAL function for small
+        # solver-drawn inputs (one ASan harness per function); a clause false there is a violation with its input
+        ncct = meta.get("cct", 10 if tier == "quick" else 150)
+        if ncct and not confirmed and all(o.status == "discharged" for o in obs):
+            try:
+                from vf import cct
+                r = cct.run(ex, n_inputs=ncct, seed=int(os.environ.get("VERIF_SEED", "0")))
+                out["cct"] = {k_: v_ for k_, v_ in r.items() if k_ != "violations"}
+                if r["violations"]:
+                    v = r["violations"][0]
+                    out["obligations"].append({
+                        "name": "%s:%s/CONTRACT-TEST" % (fname, func), "kind": "CCT", "status": "failed",
+                        "backend": "concrete-contract-test", "time_s": 0.0,
+                        "output": "proved contract false on the real function for a small input: generator unsound or harness wrong",
+                        "replay": v, "goal": v.get("reason")})
+            except Exception as e2:
+                out["cct_error"] = "%s" % e2
         for nm in out["trivial"]:
             # contract clauses the generator's simplifier reduced to `true` (e.g. a store followed by a read)
             out["obligations"].append({"name": nm + "#simplified", "kind": "POST", "status": "discharged",
@@ -98,7 +115,7 @@ def _verify_c(job):
         try:
             from vf import cct
             if ex is not None and getattr(ex, "entry", None) is not None:
-                r = cct.run(ex, n_inputs=40, seed=int(os.environ.get("VERIF_SEED", "0")))
+                r = cct.run(ex, n_inputs=400, seed=int(os.environ.get("VERIF_SEED", "0")))
                 out["cct"] = {k_: v_ for k_, v_ in r.items() if k_ != "violations"}
                 if r["violations"]:
                     v = r["violations"][0]
